@@ -92,7 +92,7 @@ func (w *wctx) done() {
 		theRun.Add("accepted_"+w.layer, int64(w.acc))
 		theRun.Add("runs_"+w.layer, int64(w.n))
 	}
-	w.n, w.acc = 0, 0
+	w.n, w.acc, w.layer = 0, 0, ""
 }
 
 type singleFetcher struct{ out *wire.TxOut }
